@@ -10,3 +10,4 @@ open Cache
 #print axioms C09_failover_locks_by_key
 #print axioms C09_key_never_changes
 #print axioms C09_failure_cache_by_key
+#print axioms C09_skeleton_key_handling
